@@ -229,7 +229,10 @@ func run(c *core.Ctx) {
 		if c.Expired() {
 			return
 		}
-		caseNo, _ := c.Begin()
+		caseNo, run := c.Begin()
+		if c.Skip(caseNo, run, Input{Prefix: prefix, Chunks: []string{text}, Budget: -2}) {
+			return
+		}
 		if ok, v := checkOneShot(prefix, text); !ok {
 			c.Fail(caseNo, v.classes, v.fingerprint, Input{Prefix: prefix, Chunks: []string{text}, Budget: -2}, v.expected, v.observed)
 		}
